@@ -6,6 +6,18 @@ BASE = json.load(open('/root/.vp/BASELINE.json'))
 
 # id -> (technique, level text, level note, design ref)
 CLAIMED = {
+ "C01": ("representation invariant of the processor (shape + every recorded signature valid for its digest and signer + own VAA keyed by its digest) proved preserved by all handlers and Run; ghost 'quorumSigned' mark that both sinks (db.StoreSignedVAA, broadcastSignedVAA) require and that can only be set by proving QuorumSigned(v, keys) at the call site; no-overwrite assertion on the inbound path; SMT",
+         "Deductive proof for every sequence of gossip, chain observations, guardian-set updates and backfill: whenever the node stores or broadcasts a signed VAA, QuorumSigned holds - valid signatures over the VAA's own digest, at the claimed indices of the entry's guardian-set snapshot (local path) or the current set (inbound path), strictly ascending, distinct signers, count >= floor(2n/3)+1 - and the inbound path never replaces a stored VAA. A new store/broadcast site without that proof fails the callee's precondition.",
+         "Trusted: govc, SMT solvers; ecrecover/keccak/hex uninterpreted; guardian sets arriving from chain have <= 255 pairwise distinct keys (explicit environment assumption - the Ethereum contract does not enforce distinctness); ghost-store contracts of the db functions; 'the set the VAA names' is proved for the guardian-set *snapshot of the entry*, the equality GuardianSetIndex == gs.Index for chain-observed entries is not tracked separately from injected ones.",
+         "DESIGN.md §3-C01"),
+ "C02": ("ensures clauses on handleObservation (publish-iff with a counting spec function over the recorded signatures, once, never-for-unobserved, frame on reject), handleMessage (governance emitter never signed, deterministic VAA, signs its own digest), handleInbound (never publishes), broadcastSignature (records own observation); SMT",
+         "Deductive proof per handler call, from every state satisfying the invariant: an accepted observation for an entry publishes exactly when the node has its own VAA, the entry is not yet submitted and the number of set members with a recorded valid signature reaches floor(2n/3)+1; the published header/body equal the node's own observation; a submitted entry never publishes again; a chain message naming the governance emitter changes nothing and is never signed. Arrival-order independence follows because this holds from every reachable state (Run's loop invariant, proved under C01/C13).",
+         "Trusted: as C01; 'eventually delivered' (loopback goroutine, channel fairness) is not a contract property; idempotence of re-observation is covered as 'the VAA built is a function of the message and the current set index'.",
+         "DESIGN.md §3-C02"),
+ "C03": ("frame-on-reject ensures for each rejection reason of handleObservation; accept-only-if contracts on processSignedHeartbeat / processSignedObservationRequest (member, length floor, signature over the domain-prefixed digest); cap invariant on the heartbeat table with map-cardinality axioms; domain-separation lemmas over the actual prefix variables (never assigned: checked); SMT",
+         "Deductive proof for every gossip message: an observation that does not recover to its claimed address or whose address is not in the applicable set leaves aggregation state, queues and store untouched; heartbeats and re-observation requests are accepted only from set members, only >= 34 signed bytes, only when the signature recovers over keccak(prefix ++ body) to the claimed address; a rejected heartbeat leaves the table unchanged; the table never exceeds 15 nodes per guardian; a heartbeat string is never a request string nor a 32-byte digest pre-image.",
+         "Trusted: govc, SMT solvers; keccak/ecrecover uninterpreted (the cross-purpose clause is about the signed strings, not hash collisions); processSignedHeartbeat is verified for disableVerify == false (the flag is a devnet configuration); metrics code is treated as pure.",
+         "DESIGN.md §3-C03"),
  "C04": ("contracts on serializeBody/MustWrite/SigningMsg against spec function encBody (offsets extracted from Messages.sol and governance.ral each run); injectivity lemma; SMT",
          "Deductive proof for all VAAs: the signing body equals encBody(8 body fields) byte for byte, the digest is keccak(keccak(body)), hence a function of those fields only; body_injective proves distinct fields give distinct bodies; the two contract offset tables are proved equal.",
          "Trusted: govc, SMT solvers, regex-level extraction of the Solidity/Ralph statements (fails closed), keccak uninterpreted (content-extensional), assumed contracts of bytes.Buffer and encoding/binary.Write. Solidity/Ralph execution semantics are not verified.",
